@@ -11,14 +11,30 @@ Local Ltac Zify.zify_post_hook ::= Z.div_mod_to_equations.
 Lemma wrap_u_wrap_i bits x : 0 < bits -> wrap_u bits (wrap_i bits x) = wrap_u bits x.
 Proof.
   intro Hb. unfold wrap_u, wrap_i.
-  assert (E: 2 ^ bits = 2 * 2 ^ (bits - 1)).
-  { replace bits with (1 + (bits - 1)) at 1 by lia. rewrite Z.pow_add_r by lia. reflexivity. }
-  assert (0 < 2 ^ (bits - 1)) by (apply Z.pow_pos_nonneg; lia).
-  set (M := 2 ^ bits) in *. set (Hf := 2 ^ (bits - 1)) in *.
+  assert (0 < 2 ^ bits) by (apply Z.pow_pos_nonneg; lia).
   rewrite Zminus_mod, Zmod_mod, <- Zminus_mod. f_equal. lia.
 Qed.
 
-(* ---- zig-zag: the bit formula of the code is the arithmetic table of the specification *)
+Lemma bits_above x n k : 0 <= x < 2 ^ n -> n <= k -> Z.testbit x k = false.
+Proof.
+  intros Hx Hk. destruct (Z.eq_dec x 0) as [->|Hz]; [apply Z.bits_0|].
+  apply Z.bits_above_log2; [lia|]. assert (Z.log2 x < n); [|lia]. apply Z.log2_lt_pow2; lia.
+Qed.
+
+(* x xor (2^n - 1) = 2^n - 1 - x on n-bit numbers *)
+Lemma lxor_ones_low x n : 0 <= n -> 0 <= x < 2 ^ n -> Z.lxor x (Z.ones n) = Z.ones n - x.
+Proof.
+  intros Hn Hx.
+  assert (E: Z.lxor x (Z.ones n) = Z.land (Z.lnot x) (Z.ones n)).
+  { apply Z.bits_inj'. intros k Hk. rewrite Z.lxor_spec, Z.land_spec, Z.lnot_spec by lia.
+    destruct (Z.lt_ge_cases k n).
+    - rewrite Z.ones_spec_low by lia. destruct (Z.testbit x k); reflexivity.
+    - rewrite Z.ones_spec_high by lia. rewrite (bits_above x n k) by lia. reflexivity. }
+  rewrite E, Z.land_ones by lia. unfold Z.lnot, Z.pred. rewrite Z.ones_equiv. unfold Z.pred.
+  symmetry. apply (Z.mod_unique_pos _ _ (-1)); lia.
+Qed.
+
+(* ---- zig-zag: the bit formulas of the code are the arithmetic table of the specification *)
 Lemma encodeZigZag_spec n : in_i 64 n = true -> encodeZigZag n = zigzag n.
 Proof.
   unfold in_i, encodeZigZag, zigzag. intro H.
@@ -27,34 +43,243 @@ Proof.
   destruct (Z.ltb_spec n 0) as [Hn|Hn].
   - replace (n / 9223372036854775808) with (-1) by lia.
     rewrite Z.lxor_m1_l. unfold Z.lnot, Z.pred.
-    unfold wrap_u64. replace (- wrap_i64 (n * 2) + -1) with (- (wrap_i64 (n * 2)) - 1) by lia.
-    unfold wrap_u, wrap_i64, wrap_i. change (2 ^ 64) with 18446744073709551616. change (2 ^ (64 - 1)) with 9223372036854775808. lia.
+    unfold wrap_u64, wrap_u, wrap_i64, wrap_i. change (2 ^ 64) with 18446744073709551616. change (2 ^ (64 - 1)) with 9223372036854775808. lia.
   - replace (n / 9223372036854775808) with 0 by lia.
     rewrite Z.lxor_0_l. unfold wrap_u64. rewrite wrap_u_wrap_i by lia. unfold wrap_u. change (2 ^ 64) with 18446744073709551616. lia.
 Qed.
 
 Lemma zigzag_range n : in_i 64 n = true -> 0 <= zigzag n < 2 ^ 64.
-Proof. unfold in_i, zigzag. change (2 ^ (64 - 1)) with 9223372036854775808. change (2 ^ 64) with 18446744073709551616. lia. Qed.
-
-Lemma land1 u : 0 <= u -> Z.land u 1 = u mod 2.
-Proof. intro H. change 1 with (Z.ones 1). rewrite Z.land_ones by lia. reflexivity. Qed.
+Proof. unfold in_i, zigzag. change (2 ^ (64 - 1)) with 9223372036854775808. change (2 ^ 64) with 18446744073709551616. destruct (Z.ltb_spec n 0); lia. Qed.
 
 Lemma decodeZigZag_zigzag n : in_i 64 n = true -> decodeZigZag (zigzag n) = n.
 Proof.
   intro H. pose proof (zigzag_range n H) as Hr. unfold decodeZigZag.
-  rewrite land1 by lia. rewrite Z.shiftr_div_pow2 by lia. change (2 ^ 1) with 2.
+  change 1 with (Z.ones 1) at 2. rewrite Z.land_ones by lia. rewrite Z.shiftr_div_pow2 by lia. change (2 ^ 1) with 2.
   unfold in_i in H. change (2 ^ (64 - 1)) with 9223372036854775808 in H. change (2 ^ 64) with 18446744073709551616 in Hr.
   unfold zigzag in *. destruct (Z.ltb_spec n 0) as [Hn|Hn].
   - replace ((-2 * n - 1) mod 2) with 1 by lia. replace ((-2 * n - 1) / 2) with (- n - 1) by lia.
-    change (wrap_u64 (- 1)) with 18446744073709551615.
-    (* x xor (2^64-1) = 2^64 - 1 - x for 0 <= x < 2^64 *)
-    assert (E: Z.lxor (- n - 1) 18446744073709551615 = 18446744073709551615 - (- n - 1)).
-    { change 18446744073709551615 with (Z.ones 64). rewrite Z.lxor_comm.
-      rewrite <- (Z.land_ones_low (- n - 1) 64) at 1.
-      - rewrite <- Z.ldiff_ones_l_low by (try lia; change (2 ^ 64) with 18446744073709551616; destruct (Z.eq_dec (-n-1) 0); [rewrite e; cbn; lia|apply Z.log2_lt_pow2; lia]).
-        admit.
-      - lia.
-      - destruct (Z.eq_dec (-n-1) 0) as [e|e]; [rewrite e; cbn; lia|apply Z.log2_lt_pow2; lia]. }
-    admit.
-  - admit.
-Admitted.
+    change (wrap_u64 (- (1))) with (Z.ones 64).
+    rewrite lxor_ones_low by (change (2 ^ 64) with 18446744073709551616; lia).
+    change (Z.ones 64) with 18446744073709551615.
+    unfold wrap_i64, wrap_i. change (2 ^ 64) with 18446744073709551616. change (2 ^ (64 - 1)) with 9223372036854775808. lia.
+  - replace ((2 * n) mod 2) with 0 by lia. replace ((2 * n) / 2) with n by lia.
+    change (wrap_u64 (- 0)) with 0. rewrite Z.lxor_0_r.
+    unfold wrap_i64, wrap_i. change (2 ^ 64) with 18446744073709551616. change (2 ^ (64 - 1)) with 9223372036854775808. lia.
+Qed.
+
+(* ---- the first byte: finite facts, by exhaustive computation over the 8 prefixes and the 256 bytes *)
+Definition vmask (e : Z) : Z := 256 - 2 ^ (8 - e).
+Definition vcap (e : Z) : Z := if e =? 8 then 1 else 2 ^ (7 - e).      (* the value bits of the first byte are < vcap e *)
+
+Definition first_byte_facts (e fb : Z) : bool :=
+  if (vmask e <=? fb) && (fb <? vmask e + vcap e) then
+    (Z.lor (fb - vmask e) (wrap_u8 (255 - Z.shiftr 255 e)) =? fb)
+    && negb (Z.land fb 128 =? 0)
+    && (lz32 (wrap_u8 (255 - fb)) - 24 =? e)
+    && (Z.land fb (Z.shiftr 255 e) =? fb - vmask e)
+  else true.
+
+(* evaluate the closed numeric subterms (after e has been replaced by a numeral) without touching the variables *)
+Ltac conc_one f :=
+  repeat match goal with
+  | |- context [f ?c] => let v := eval vm_compute in (f c) in progress change (f c) with v
+  | H : context [f ?c] |- _ => let v := eval vm_compute in (f c) in progress change (f c) with v in H
+  end.
+Definition vhi (e : Z) : Z := if e =? 8 then 64 else 7 * (e + 1).
+Ltac conc := conc_one vmask; conc_one vcap; conc_one vhi; conc_one (Z.pow 2); conc_one (Z.pow 256); conc_one (Z.mul 7).
+
+Lemma first_byte_table :
+  forallb (fun e => forallb (first_byte_facts e) all_bytes_list) [1; 2; 3; 4; 5; 6; 7; 8] = true.
+Proof. vm_compute. reflexivity. Qed.
+
+Lemma first_byte e h : 1 <= e <= 8 -> 0 <= h < vcap e ->
+  Z.lor h (wrap_u8 (255 - Z.shiftr 255 e)) = vmask e + h /\
+  (Z.land (vmask e + h) 128 =? 0) = false /\
+  lz32 (wrap_u8 (255 - (vmask e + h))) - 24 = e /\
+  Z.land (vmask e + h) (Z.shiftr 255 e) = h.
+Proof.
+  intros He Hh. pose proof first_byte_table as T. rewrite forallb_forall in T.
+  assert (Hin: In e [1; 2; 3; 4; 5; 6; 7; 8]) by (cbn; lia).
+  specialize (T e Hin).
+  assert (Hfb: 0 <= vmask e + h < 256).
+  { clear T. destruct Hin as [<-|[<-|[<-|[<-|[<-|[<-|[<-|[<-|[]]]]]]]]]; conc; lia. }
+  pose proof (byte_forall _ T (vmask e + h) Hfb) as F. unfold first_byte_facts in F.
+  replace ((vmask e <=? vmask e + h) && (vmask e + h <? vmask e + vcap e)) with true in F by lia.
+  replace (vmask e + h - vmask e) with h in F by lia.
+  rewrite !andb_true_iff in F. destruct F as (((F1 & F2) & F3) & F4).
+  repeat split; lia.
+Qed.
+
+(* ---- bit length from bounds *)
+Lemma bitlen_range u a b : 0 <= a -> 2 ^ a <= u < 2 ^ b -> a + 1 <= bitlen u <= b.
+Proof.
+  intros Ha (Hlo & Hhi). assert (0 < u) by (pose proof (Z.pow_pos_nonneg 2 a); lia).
+  destruct (bitlen_spec u H) as (HL & Hl & Hh).
+  assert (a < bitlen u) by (apply (Z.pow_lt_mono_r_iff 2); lia).
+  assert (bitlen u - 1 < b).
+  { apply (Z.pow_lt_mono_r_iff 2); try lia. destruct (Z.le_gt_cases 0 b); [lia|]. rewrite (Z.pow_neg_r 2 b) in Hhi; lia. }
+  lia.
+Qed.
+
+Lemma vint_extra_bounds u : 0 <= u < 2 ^ 64 ->
+  let e := Z.of_nat (vint_extra u) in
+  0 <= e <= 8 /\ (e = 0 -> u < 2 ^ 7) /\ (1 <= e -> 2 ^ (7 * e) <= u < 2 ^ vhi e).
+Proof.
+  intro H. unfold vint_extra.
+  repeat match goal with |- context [?a <? ?b] => destruct (Z.ltb_spec a b) end; cbn; lia.
+Qed.
+
+(* ---- WriteUnsignedVint = the specification's [unsigned vint] *)
+Lemma uvint_value_bits e u : 1 <= e <= 8 -> 0 <= u < 2 ^ vhi e -> 0 <= u / 256 ^ e < vcap e.
+Proof.
+  intros He Hu.
+  assert (Hin: In e [1; 2; 3; 4; 5; 6; 7; 8]) by (cbn; lia).
+  destruct Hin as [<-|[<-|[<-|[<-|[<-|[<-|[<-|[<-|[]]]]]]]]]; conc; lia.
+Qed.
+
+Theorem writeUnsignedVint_spec u : 0 <= u < 2 ^ 64 -> spec_uvint u = Some (writeUnsignedVint u).
+Proof.
+  intro Hu. unfold spec_uvint.
+  replace (fits_unsigned 8 u) with true by (unfold fits_unsigned; change (256 ^ Z.of_nat 8) with (2 ^ 64); lia).
+  destruct (vint_extra_bounds u Hu) as (He & H0 & H1). set (en := vint_extra u) in *. set (e := Z.of_nat en) in *.
+  f_equal. unfold writeUnsignedVint, lz64.
+  rewrite Z.shiftr_div_pow2 by lia. change (2 ^ 6) with 64.
+  destruct (Z.eq_dec e 0) as [E0|E0].
+  - (* one byte *)
+    specialize (H0 E0). assert (en = 0%nat) by lia. rewrite H. cbn [Z.of_nat spec_uint seq map]. rewrite E0.
+    assert (HL: bitlen u <= 7).
+    { destruct (Z.eq_dec u 0) as [->|]; [cbn; lia|]. pose proof (bitlen_range u 0 7 ltac:(lia) ltac:(cbn; lia)). lia. }
+    assert (0 <= bitlen u) by (unfold bitlen; destruct (u =? 0); pose proof (Z.log2_nonneg u); lia).
+    replace ((639 - (64 - bitlen u) * 9) / 64 <=? 1) with true by lia.
+    unfold wrap_u8, wrap_u. change (2 ^ 8) with 256. change (2 ^ (8 - 0)) with 256. change (256 ^ 0) with 1.
+    rewrite Z.div_1_r. change (2 ^ 7) with 128 in H0. f_equal. lia.
+  - specialize (H1 ltac:(lia)).
+    pose proof (bitlen_range u (7 * e) (vhi e) ltac:(lia) H1) as HL.
+    assert (Hnb: (639 - (64 - bitlen u) * 9) / 64 = e + 1).
+    { unfold vhi in HL. destruct (Z.eqb_spec e 8); lia. }
+    rewrite Hnb. replace (e + 1 <=? 1) with false by lia.
+    replace (Z.to_nat (e + 1)) with (S en) by lia. rewrite be_bytes_cons. fold e.
+    replace (e + 1 - 1) with e by lia.
+    pose proof (uvint_value_bits e u ltac:(lia) ltac:(lia)) as Hh.
+    assert (Hh256: 0 <= u / 256 ^ e < 256).
+    { unfold vcap in Hh. destruct (Z.eqb_spec e 8); [lia|].
+      assert (2 ^ (7 - e) <= 2 ^ 8) by (apply Z.pow_le_mono_r; lia). change (2 ^ 8) with 256 in *. lia. }
+    rewrite (Z.mod_small _ 256) by lia.
+    destruct (first_byte e (u / 256 ^ e) ltac:(lia) Hh) as (F1 & _).
+    rewrite F1. unfold vmask. f_equal.
+    rewrite <- be_bytes_spec_uint. unfold e. apply be_bytes_mod.
+Qed.
+
+Lemma some_inj {A} (a b : A) : Some a = Some b -> a = b.
+Proof. intro H. congruence. Qed.
+
+(* ---- ReadUnsignedVint inverts it *)
+Lemma lor_shift_byte x d : 0 <= x -> 0 <= d < 256 -> Z.lor (x * 256) d = x * 256 + d.
+Proof.
+  intros Hx Hd.
+  assert (L: Z.land (x * 256) d = 0).
+  { apply Z.bits_inj'. intros k Hk. rewrite Z.land_spec, Z.bits_0.
+    change 256 with (2 ^ 8). rewrite <- Z.shiftl_mul_pow2 by lia.
+    destruct (Z.lt_ge_cases k 8).
+    - rewrite Z.shiftl_spec_low by lia. reflexivity.
+    - rewrite (bits_above d 8 k) by (change (2 ^ 8) with 256; lia). apply andb_false_r. }
+  rewrite <- Z.lxor_lor by exact L. symmetry. apply Z.add_nocarry_lxor. exact L.
+Qed.
+
+Definition vstep (val b : Z) : Z := wrap_u64 (Z.lor (wrap_u64 (Z.shiftl val 8)) (Z.land b 255)).
+
+Lemma vstep_small val d : 0 <= val -> val * 256 + 256 <= 2 ^ 64 -> 0 <= d < 256 -> vstep val d = val * 256 + d.
+Proof.
+  intros Hv Hb Hd. unfold vstep. rewrite Z.shiftl_mul_pow2 by lia. change (2 ^ 8) with 256.
+  change 255 with (Z.ones 8). rewrite Z.land_ones by lia. change (2 ^ 8) with 256. rewrite (Z.mod_small d 256) by lia.
+  unfold wrap_u64, wrap_u. rewrite (Z.mod_small (val * 256)) by lia.
+  rewrite lor_shift_byte by lia. apply Z.mod_small. lia.
+Qed.
+
+Lemma fold_vstep k : forall w val, 0 <= val -> val * 256 ^ Z.of_nat k + 256 ^ Z.of_nat k <= 2 ^ 64 ->
+  fold_left vstep (be_bytes k w) val = val * 256 ^ Z.of_nat k + w mod 256 ^ Z.of_nat k.
+Proof.
+  induction k as [|k IH]; intros w val Hv Hb.
+  - cbn. rewrite Z.mod_1_r. lia.
+  - rewrite be_bytes_cons. cbn [fold_left]. rewrite pow256_S in *.
+    pose proof (pow256_pos k) as HP. set (P := 256 ^ Z.of_nat k) in *.
+    assert (Hd: 0 <= (w / P) mod 256 < 256) by (apply Z.mod_pos_bound; lia).
+    rewrite vstep_small by nia.
+    rewrite IH by nia. fold P.
+    rewrite (Z.mul_comm 256 P), Z.rem_mul_r by lia. lia.
+Qed.
+
+Theorem readUnsignedVint_spec u rest : 0 <= u < 2 ^ 64 ->
+  readUnsignedVint (writeUnsignedVint u ++ rest) = OK (u, rest).
+Proof.
+  intro Hu. pose proof (writeUnsignedVint_spec u Hu) as S. unfold spec_uvint in S.
+  replace (fits_unsigned 8 u) with true in S by (unfold fits_unsigned; change (256 ^ Z.of_nat 8) with (2 ^ 64); lia).
+  apply some_inj in S. rewrite <- S. clear S.
+  destruct (vint_extra_bounds u Hu) as (He & H0 & H1). set (en := vint_extra u) in *. set (e := Z.of_nat en) in *.
+  rewrite <- app_comm_cons. unfold readUnsignedVint.
+  destruct (Z.eq_dec e 0) as [E0|E0].
+  - specialize (H0 E0). assert (Hen: en = 0%nat) by lia. rewrite Hen, E0. unfold spec_uint. change (seq 0 0) with (@nil nat).
+    cbv [map app].
+    change (2 ^ (8 - 0)) with 256. change (256 ^ 0) with 1. change (2 ^ 8) with 256. rewrite Z.div_1_r. replace (256 - 256 + u) with u by lia.
+    change (2 ^ 7) with 128 in H0. rewrite land128_eq0 by lia. replace (u <? 128) with true by lia. reflexivity.
+  - specialize (H1 ltac:(lia)).
+    pose proof (uvint_value_bits e u ltac:(lia) ltac:(lia)) as Hh.
+    destruct (first_byte e (u / 256 ^ e) ltac:(lia) Hh) as (_ & F2 & F3 & F4).
+    unfold vmask in *. change (2 ^ 8) with 256. rewrite F2, F3, F4.
+    rewrite <- be_bytes_spec_uint, be_bytes_mod.
+    assert (Hlen: zlen (be_bytes en u ++ rest) <? e = false).
+    { rewrite zlen_app, be_bytes_zlen. pose proof (zlen_nonneg rest). fold e. lia. }
+    rewrite Hlen. replace (Z.to_nat e) with (List.length (be_bytes en u)) by (rewrite be_bytes_length; lia).
+    rewrite firstn_app_exact, skipn_app_exact. f_equal. f_equal.
+    change (fun val b : Z => wrap_u64 (Z.lor (wrap_u64 (Z.shiftl val 8)) (Z.land b 255))) with vstep.
+    assert (Hcap: u / 256 ^ e * 256 ^ e + 256 ^ e <= 2 ^ 64).
+    { clear F2 F3 F4 Hlen.
+      assert (Hin: In e [1; 2; 3; 4; 5; 6; 7; 8]) by (cbn; lia).
+      revert Hh H1. generalize (u / 256 ^ e). intros q Hh H1. clearbody e. clear He H0 E0.
+      destruct Hin as [<-|[<-|[<-|[<-|[<-|[<-|[<-|[<-|[]]]]]]]]]; conc; lia. }
+    rewrite fold_vstep by (fold e; lia). fold e.
+    pose proof (Z.pow_pos_nonneg 256 e ltac:(lia) ltac:(lia)).
+    pose proof (Z.div_mod u (256 ^ e) ltac:(lia)). lia.
+Qed.
+
+(* ---- [vint] *)
+Theorem writeVint_spec n : in_i 64 n = true -> spec_vint n = Some (writeVint n).
+Proof.
+  intro H. unfold spec_vint, writeVint.
+  replace (fits_twos 8 n) with true by (unfold fits_twos, in_i in *; change (8 * Z.of_nat 8 - 1) with (64 - 1); lia).
+  rewrite encodeZigZag_spec by exact H. apply writeUnsignedVint_spec. apply zigzag_range. exact H.
+Qed.
+
+Theorem readVint_writeVint n rest : in_i 64 n = true -> readVint (writeVint n ++ rest) = OK (n, rest).
+Proof.
+  intro H. unfold readVint, writeVint. rewrite encodeZigZag_spec by exact H.
+  rewrite readUnsignedVint_spec by (apply zigzag_range; exact H).
+  cbn [bindo fst snd]. rewrite decodeZigZag_zigzag by exact H. reflexivity.
+Qed.
+
+Lemma writeUnsignedVint_ok u : 0 <= u < 2 ^ 64 -> bytes_ok (writeUnsignedVint u).
+Proof.
+  intro Hu. pose proof (writeUnsignedVint_spec u Hu) as S. unfold spec_uvint in S.
+  destruct (fits_unsigned 8 u); [|discriminate]. apply some_inj in S. rewrite <- S.
+  destruct (vint_extra_bounds u Hu) as (He & H0 & H1). set (en := vint_extra u) in *. set (e := Z.of_nat en) in *.
+  constructor.
+  - unfold byte_ok. destruct (Z.eq_dec e 0) as [E0|E0].
+    + specialize (H0 E0). rewrite E0. change (2 ^ (8 - 0)) with 256. change (256 ^ 0) with 1. rewrite Z.div_1_r. cbn in *. lia.
+    + specialize (H1 ltac:(lia)). pose proof (uvint_value_bits e u ltac:(lia) ltac:(lia)) as Hh.
+      assert (Hin: In e [1; 2; 3; 4; 5; 6; 7; 8]) by (cbn; lia).
+      revert Hh. generalize (u / 256 ^ e). intros q Hh. clearbody e. clear He H0 E0 H1.
+      destruct Hin as [<-|[<-|[<-|[<-|[<-|[<-|[<-|[<-|[]]]]]]]]]; conc; lia.
+  - rewrite <- be_bytes_spec_uint. apply be_bytes_ok.
+Qed.
+
+Lemma writeVint_ok n : in_i 64 n = true -> bytes_ok (writeVint n).
+Proof.
+  intro H. unfold writeVint. rewrite encodeZigZag_spec by exact H. apply writeUnsignedVint_ok. apply zigzag_range. exact H.
+Qed.
+
+Lemma writeVint_nonempty n : in_i 64 n = true -> 0 < zlen (writeVint n).
+Proof.
+  intro H. pose proof (writeVint_spec n H) as S. unfold spec_vint, spec_uvint in S.
+  destruct (fits_twos 8 n); [|discriminate]. destruct (fits_unsigned 8 (zigzag n)); [|discriminate].
+  apply some_inj in S. rewrite <- S. rewrite zlen_cons. pose proof (zlen_nonneg (spec_uint (vint_extra (zigzag n)) (zigzag n mod 256 ^ Z.of_nat (vint_extra (zigzag n))))). lia.
+Qed.
